@@ -537,3 +537,61 @@ def _dtype(ctx, repo) -> None:
             ctx.check(got == "raise", "R-DTYPE", f"{f.qualname}:{prec!r}/{'complex' if cplx else 'real'} rejected",
                       f.where, "raises",
                       f"unsupported precision {prec!r} silently yields {got!r}", key_detail=f"bad-{prec}-{cplx}")
+
+
+# ---- added after the seeded change C38-r3seed5: the plan that is handed out transforms the requested axes
+_inner_run_c38b = run
+
+
+def run(ctx) -> None:  # noqa: F811
+    ctx.rule("R-PLANAXES", "get_fftw_object(array, name, ..., axes) returns a transform over `axes` on every path: a "
+             "pyfftw.FFTW(...) constructed with axes=<the parameter>, a recursive get_fftw_object(..., axes=axes), or "
+             "the pyfftw.builders fallback for the named transform.  Returning the object planned by a helper whose "
+             "axes are fixed ((-2, -1) in _new_fftw_object) transforms the last two axes whatever was requested — n-d "
+             "transforms (fft_interpolate of 3-d data) then differ between the FFTW and NumPy back ends")
+    repo = ctx.repo
+    f = repo.function(FFT, "get_fftw_object")
+    ctx.require("axes" in f.params, f"{f.qualname}: no `axes` parameter")
+    df = DataFlow(f.node)
+    rets = [r for r in walk_no_nested(f.node) if isinstance(r, ast.Return) and r.value is not None]
+    ctx.require(len(rets) >= 2, f"{f.qualname}: expected several returns")
+
+    def axes_kw_is_param(call: ast.Call) -> bool:
+        v = next((k.value for k in call.keywords if k.arg == "axes"), None)
+        return isinstance(v, ast.Name) and v.id == "axes"
+
+    n = 0
+    for r in rets:
+        v, at = r.value, df.cfg.node_of(r).idx
+        hops = 0
+        while isinstance(v, ast.Name) and hops < 4:
+            d = df.single_def(at, v.id)
+            if d is None or d.value is None:
+                break
+            v, at, hops = d.value, d.node, hops + 1
+        n += 1
+        ok, why = False, norm_text(v)[:60]
+        if isinstance(v, ast.Call):
+            cn = call_name(v) or ""
+            if cn.endswith("FFTW") or cn == f.name:
+                ok = axes_kw_is_param(v)
+                why = f"`{cn}(...)` is not given axes=axes"
+            elif isinstance(v.func, ast.Call) and call_name(v.func) == "getattr" and "builders" in norm_text(v.func):
+                ok = True  # numpy-compatible builder of the named transform (fallback)
+            else:
+                tgt = repo.resolve_name(f.module, cn)
+                fixed = None
+                if tgt is not None and hasattr(tgt, "node"):
+                    for c in walk_no_nested(tgt.node):
+                        if isinstance(c, ast.Call) and (call_name(c) or "").endswith("FFTW"):
+                            av = next((k.value for k in c.keywords if k.arg == "axes"), None)
+                            if av is not None and not (isinstance(av, ast.Name) and av.id in tgt.params):
+                                fixed = norm_text(av)
+                ok = fixed is None and tgt is not None and "axes" in getattr(tgt, "params", ())
+                why = (f"`{cn}(...)` plans for the fixed axes {fixed}, not for the requested `axes`" if fixed else
+                       f"`{cn}(...)` does not receive the requested axes")
+        ctx.check(ok, "R-PLANAXES", f"{f.qualname}:return {norm_text(r.value)[:30]}", f.loc(r),
+                  "the returned transform is planned for the requested axes",
+                  f"{why}: the caller asked for a transform over `axes` and gets one over other axes",
+                  key_detail="planaxes")
+    _inner_run_c38b(ctx)
